@@ -221,3 +221,14 @@ ADDED3 = {
 }
 for _k, (_t, _m) in ADDED3.items():
     ADDED[_k] = (ADDED[_k][0] + " " + _t, ADDED[_k][1] + "; " + _m) if _k in ADDED else ("Also: " + _t, _m)
+
+ADDED4 = {
+    "C04": ("The traversal is folded over all rooted trees of up to six nodes with recording callbacks (R-TRAVVAL, sa/objfold.py): the property's clauses are read off the call log.",
+            "interpretation of the traversal over witness trees with analysis-supplied callbacks"),
+    "C18": ("is_bifurcate is folded over all rooted trees of up to seven nodes and two-rooted forests (R-BIFVAL).", "exact folding over all small parent tables"),
+    "C15": ("A colour marker never becomes the chain end, helpers included (R-COLOURLINK).", "return-provenance lint"),
+    "C09": ("A collection reads every element from its own owner (R-EACHOWNER).", "owner-of-first-element lint"),
+    "C16": ("Degeneracy is decided on the arc length, interpolators tolerate repeated abscissae (R-DEGENERATE).", "end-point test / interpolator lint"),
+}
+for _k, (_t, _m) in ADDED4.items():
+    ADDED[_k] = (ADDED[_k][0] + " " + _t, ADDED[_k][1] + "; " + _m) if _k in ADDED else ("Also: " + _t, _m)
